@@ -14,7 +14,7 @@ def run(rep, tier):
     from harness import C16_schema as H
 
     parts = xh.write_module("hC16_parts", H.parts_source())
-    targets = [f"{parts}.check_schema_d{d}_s{s}" for d in range(len(H.DEFAULTS)) for s in range(3)] + [f"{MOD}.twin_full_features_ok", f"{MOD}.check_schema_after_client_run"]
+    targets = [f"{parts}.check_schema_d{d}_s{s}" for d in range(len(H.DEFAULTS)) for s in range(3)] + [f"{parts}.check_schema_history_{h}_s{s}" for h in (0, 1) for s in range(3)] + [f"{MOD}.twin_full_features_ok"]
     env = {"VERIF_C16_FLAGS": "4" if tier == "quick" else "8", "VERIF_C16_FORMATS": "2" if tier == "quick" else "3"}
     res = xh.run_targets(targets, timeout=600 if tier == "quick" else 2400, env_extra=env)
     xh.fold(rep, parts, [r for r in res if r.target.startswith(parts)])
